@@ -493,6 +493,17 @@ func EncryptFragment(f *Fragment, key, iv []byte, ipd *InitProtectData) error {
 		if err != nil {
 			return fmt.Errorf("get protect ranges: %w", err)
 		}
+		if len(subsamplePatterns) > 0 {
+			// saiz has a single byte for the size of the auxiliary information of a sample
+			auxInfoSize := 2 + 6*len(subsamplePatterns)
+			if ipd.Scheme == "cenc" {
+				auxInfoSize += len(iv)
+			}
+			if auxInfoSize > 255 {
+				return fmt.Errorf("sample auxiliary information with %d subsamples is %d bytes, saiz allows at most 255",
+					len(subsamplePatterns), auxInfoSize)
+			}
+		}
 		switch ipd.Scheme {
 		case "cenc":
 			err = CryptSampleCenc(sample, key, iv, subsamplePatterns)
